@@ -155,6 +155,53 @@ def receive_samples(samples):
     return pk
 
 
+def mangled_bits(data, violate_at=None, omit=(), trunc=None, dribble=()):
+    """Line bits (after the SYNC, before the EOP) of a packet sent by a faulty / marginal transmitter or through a
+    hub chain: the bytes are stuffed as in stuff() except that the stuffed bits whose 0-based index is in `omit` are
+    not inserted at all (the transmitter's run counter still restarts there) and the one at `violate_at` is sent as
+    1; then only the first `trunc` bits are kept (a runt) and the raw bits `dribble` are appended ahead of the EOP
+    (USB 2.0 7.1.9.1 dribble)."""
+    omit = set(omit)
+    out = []
+    run = 0
+    nstuff = 0
+    for b in bytes_to_bits(data):
+        out.append(b)
+        run = run + 1 if b else 0
+        if run == 6:
+            if nstuff in omit:
+                pass
+            elif violate_at is not None and nstuff == violate_at:
+                out.append(1)
+            else:
+                out.append(0)
+            nstuff += 1
+            run = 0
+    if trunc is not None:
+        out = out[:trunc]
+    return out + [int(bool(b)) for b in dribble]
+
+
+def encode_bits(bits):
+    """Line symbols of SYNC + NRZI(bits, already stuffed or not) + EOP."""
+    return SYNC + nrzi(list(bits)) + EOP
+
+
+def has_seven_ones(bits):
+    """True iff the line bit stream contains seven consecutive 1s (a bit-stuffing violation for any receiver)."""
+    run = 0
+    for b in bits:
+        run = run + 1 if b else 0
+        if run >= 7:
+            return True
+    return False
+
+
+def residue_bits(bits):
+    """Number of data bits a stuffing-removing receiver is left with beyond a whole number of bytes (0..7)."""
+    return len(unstuff(list(bits))[0]) % 8
+
+
 def _selfcheck():
     # ACK handshake (PID 0xD2): bits LSB first 0 1 0 0 1 0 1 1
     assert encode_packet([0xD2]) == SYNC + "JJKJJKKK" + EOP, encode_packet([0xD2])
@@ -167,6 +214,19 @@ def _selfcheck():
     # 16 ones: stuffed after 6 and 12
     b, n = stuff(bytes_to_bits([0xFF, 0xFF]))
     assert b == [1] * 6 + [0] + [1] * 6 + [0] + [1] * 4 and n == 2
+    # mangled packets: nothing mangled = the ordinary stuffed stream
+    assert mangled_bits([0xFF, 0xFF]) == stuff(bytes_to_bits([0xFF, 0xFF]))[0]
+    assert mangled_bits([0xFF, 0xFF], violate_at=1) == stuff(bytes_to_bits([0xFF, 0xFF]), 1)[0]
+    # stuffing omitted everywhere = the raw bits: eight 1s in a row, the receiver drops one and keeps 8n-1 bits
+    assert mangled_bits([0xC3, 0xFF, 0x22], omit=(0,)) == bytes_to_bits([0xC3, 0xFF, 0x22])
+    assert has_seven_ones(mangled_bits([0xC3, 0xFF, 0x22], omit=(0,)))
+    assert residue_bits(mangled_bits([0xC3, 0xFF, 0x22], omit=(0,))) == 7
+    # an omitted stuffed bit in front of a 0 is not a violation, but the receiver still loses a bit
+    assert not has_seven_ones(mangled_bits([0x7E, 0x00], omit=(0,)))
+    assert residue_bits(mangled_bits([0x7E, 0x00], omit=(0,))) == 7
+    assert residue_bits(mangled_bits([0xD2, 0x7E], dribble=(1,))) == 1
+    assert residue_bits(mangled_bits([0xD2, 0x7E], trunc=11)) == 3
+    assert encode_bits(mangled_bits([0xD2])) == encode_packet([0xD2])
     x = 0x1234567
     for k in range(200):
         x = (x * 1103515245 + 12345) & 0x7FFFFFFF
